@@ -285,6 +285,9 @@ func (bc BoundedComparator) minSumNonNegative(aDiff, bDiff frontend.Variable) {
 
 // cmpInField compares a and b''')])
 save('benign-flow-wrapper','C14','std/math/cmp/bounded.go','Min split into an exported wrapper and an internal method, one assertion moved into a helper')
+m('emuwidth-quotient','C12',['EMU-WIDTH'],'std/math/emulated/field_mul.go','''	quo = f.packLimbs(ret[:nbQuoLimbs], false)
+	// remainder is always range checked when we use it as a result of''','''	quo = f.newInternalElement(ret[:nbQuoLimbs], 0)
+	// remainder is always range checked when we use it as a result of''',note='quotient limbs of mulHint no longer width-checked (a new unconstrained piece besides the known carries)')
 json.dump({'comment':'selftest mutants: each patch breaks one rule instance and must be detected by the listed rule(s) of its property; produced by tools/make_selftest.py','mutants':M}, open(os.path.join(root,'selftest','mutants.json'),'w'), indent=1)
 subprocess.run(['git','-C','/repo','worktree','remove','--force',WT],capture_output=True)
 print(len(M),'mutants')
